@@ -10,8 +10,8 @@ RULE = ("one child process per case. Every combination of enum-valued fields is 
         "strategy{NoAdaptive,BBR}; each with k draws (quick 2, thorough 24) of the numeric fields from boundary grids (thresholds 0, fractions, 1, 1e6, negative, NaN, inf; intervals 0, 1, "
         "non-dividing, 600000, u32::MAX; zero durations; empty and blank names; memory marks around the machine's total memory), loaded through load_rules / load_rules_of_resource / append_rule "
         "(also with an empty resource name), followed by 2-8 entries (batch 0/1/5/1e6; args none/empty/short/long; attachments; inbound/outbound; clock advances; exits with and without error) "
-        "and a health probe of all five managers (get_rules, load a valid rule for an unrelated resource, entry, exit, clear). Extra stream: hotspot rules with LRU capacity 1..3 under 15-30 "
-        "entries over 5 parameter values. Sequence stream: per family and refusal clause, a loading call with the refused rule followed by another entry point with an accepted rule (all "
+        "and a health probe of all five managers (get_rules, load a valid rule for an unrelated resource, entry, exit, clear). Extra streams: hotspot rules with LRU capacity 1..3 under 15-30 "
+        "entries over 5 parameter values; exhaustively every argument sequence of length cap+3 over cap+1 values inside one window for cap 1, 2 (a sample for 3). Sequence stream: per family and refusal clause, a loading call with the refused rule followed by another entry point with an accepted rule (all "
         "pairs of entry points, both orders), then entries repeating one argument with clock advances. In-flight stream: accepted rules of every family replaced or cleared through every entry point while entries admitted under them (for breakers: the Half-Open probe) are in flight, exits afterwards. Non-trivial: every case (a rule is defined, validated by both sides, loaded and exercised); distinct = distinct op text.")
 NONTRIVIAL_TAGS = ["probe"]
 ASSUMPTIONS = ["a panic is observed by catch_unwind in a child process, a hang by a 10 s wall-clock limit per case under the virtual clock",
@@ -176,6 +176,33 @@ def hs_lru_case(rng):
     ops += entries(rng, "a", 4, args_pool=("v1", "v2"), long_args=False)
     ops.append("probe")
     return ops
+
+
+def hs_lru_exhaustive_cases(rng, tier):
+    """every argument sequence of length cap+3 over cap+1 values (cap = 1, 2; a sample for cap = 3) inside one statistic
+    window, each on its own resource and rule: fill the caches, touch an older key, insert a new one, bring an evicted one back ...
+    The two LRU caches of a QPS rule must evict the same victims whatever the order (seed C12-b: they drifted apart and the
+    check loop never returned). One child process per capacity and control behaviour; a hang ends the case."""
+    cases = []
+    for cap in (1, 2, 3):
+        vals = ["v%d" % i for i in range(cap + 1)]
+        seqs = list(itertools.product(vals, repeat=cap + 3))
+        if cap == 3:
+            seqs = rng.sample(seqs, 300 if tier == "quick" else 2000)
+        for ctl in ("r", "t"):
+            ops = ["sys.total"]
+            ids = []
+            for k in range(len(seqs)):
+                ops.append("rule fam=hs id=e%d res=l%d metric=q ctl=%s idx=0 key=- thr=3 maxq=0 burst=1 dur=10 cap=%d" % (k, k, ctl, cap))
+                ids.append("e%d" % k)
+            ops.append("load fam=hs via=all ids=%s" % ",".join(ids))
+            for k, seq in enumerate(seqs):
+                for v in seq:
+                    ops.append("build res=l%d batch=1 args=%s" % (k, v))
+                    ops.append("exit")
+            ops.append("probe")
+            cases.append(ops)
+    return cases
 
 
 def iso_case(rng):
@@ -345,7 +372,7 @@ def gen(rng, tier):
     seq = sequence_cases(rng)
     if tier == "quick":
         seq = [c for c in seq if rng.random() < 0.45]       # every refusal clause still meets several entry-point pairs
-    cases = clause_cases(rng) + seq + inflight_cases(rng)
+    cases = clause_cases(rng) + seq + inflight_cases(rng) + hs_lru_exhaustive_cases(rng, tier)
     for _ in range(k):
         for calc, ctl, rel in itertools.product("dwmc", "rtc", ["c", "a-seen", "a-unseen", "a-empty"]):
             cases.append(flow_case(rng, calc, ctl, rel))
